@@ -10,6 +10,8 @@ the module's rejection outcomes).
 R16.3 aggregation: check_prior applies the 'positive' test first, dispatches each family name to
 the function of that family, raises on an unknown name and returns the sum.
 R16.4 a non-finite prior is turned into -inf before the model is touched.
+Sample points of R16.1 include, for every comparison of the value or a distribution parameter with a number in the code, the point with
+that quantity set to the number; tail calls to sibling prior methods are analysed with the sibling body in place.
 """
 import ast
 
